@@ -326,7 +326,14 @@ fn run_shots<RK: RadioKind, C: Probe>(
                 {
                     let buf = &mut arena[GUARD..GUARD + case.bufsize];
                     let l = lora.as_mut().unwrap();
-                    let _ = trap(|| exec::run(l.get_rx_result(pkt, buf), exec::POLL_BUDGET).map(|(r, p)| (r.map(|x| x.0 as usize).map_err(|e| format!("{:?}", e)), p)));
+                    let r1: Result<Result<(Result<usize, String>, u64), u64>, Trapped> = trap(|| exec::run(l.get_rx_result(pkt, buf), exec::POLL_BUDGET).map(|(r, p)| (r.map(|x| x.0 as usize).map_err(|e| format!("{:?}", e)), p)));
+                    // the fetch that lost a transaction: an error, or (when the lost transaction did
+                    // not matter) the packet - never 'Ok' with other bytes
+                    col.event("fetch_with_lost_transaction");
+                    judge(var, case, shot, &r1, &arena, bus, col);
+                    if matches!(r1, Ok(Err(_))) {
+                        return;
+                    }
                 }
                 {
                     let mut sh = bus.borrow_mut();
